@@ -70,6 +70,17 @@ func c07Specs(tier string, seed int) []c07Spec {
 			}
 		}
 	}
+	// C: a legume cut while it is still fixing N, followed by a non-legume (and the other way round)
+	for _, so := range []string{"loam12", "sand20"} {
+		for _, pair := range [][2]string{{"SOY", "SW"}, {"LUP", "SM"}, {"SW", "SOY"}, {"SOY", "LUP"}} {
+			for _, pre := range []int{40, 65} {
+				for _, in := range []float64{0, 60} {
+					b := e1Base{Soil: so, GW: 99, InitW: 0.8, InitN: in, Crop: pair[1], PreCrop: pair[0], PreDays: pre, WarmUp: pre + 25, ET: 3, Start: "2001-04-25"}
+					out = append(out, c07Spec{Base: b, Fert: "KAS", Alpha: c07Alpha, D: d - 1})
+				}
+			}
+		}
+	}
 	return out
 }
 
@@ -98,6 +109,8 @@ func init() {
 }
 
 type c07Probe struct {
+	dayPesum, dayAufna, dayNfix float64
+	cropDay                     bool
 	c     *mc.Ctx
 	label string
 	bare  bool
@@ -135,6 +148,8 @@ func (l *c07Probe) probe() *hermes.VerifProbe {
 			l.tillDepth, l.tillTyp = g.EINT[g.NTIL.Index], g.TILART[g.NTIL.Index]
 			l.harvestDay = zeit == g.ERNTE[g.AKF.Index]
 			l.nontriv = l.fertDue || l.tillDue
+			l.dayPesum, l.dayAufna, l.dayNfix = g.PESUM, g.AUFNASUM, g.NFIXSUM
+			l.cropDay = g.SAAT[g.AKF.Index] > 0 && zeit > g.SAAT[g.AKF.Index] && !l.harvestDay
 		},
 		AfterEvatra: func(g *hermes.GlobalVarsMain, zeit int, w *hermes.WaterSharedVars) {
 			l.pesum, l.aufna, l.nfixsum = g.PESUM, g.AUFNASUM, g.NFIXSUM
@@ -164,6 +179,15 @@ func (l *c07Probe) probe() *hermes.VerifProbe {
 			}
 		},
 		DayEnd: func(g *hermes.GlobalVarsMain, zeit int, steps, wdt float64, cs *hermes.CropSharedVars, w *hermes.WaterSharedVars) {
+			// over a day of a growing crop its N content grows by no more than what it took up from the soil plus what it
+			// fixed that day (dying organs only lower it)
+			if l.cropDay {
+				l.c.Eval(1)
+				dP, dU, dF := g.PESUM-l.dayPesum, g.AUFNASUM-l.dayAufna, g.NFIXSUM-l.dayNfix
+				if dP > dU+dF+relTol(g.PESUM, dU, dF) {
+					l.c.Violate("crop-N grows by more than uptake plus fixation", fmt.Sprintf("%s day %d: crop N content +%.10g kg N/ha, uptake of the day %.10g, fixation of the day %.10g", l.label, zeit, dP, dU, dF), nil)
+				}
+			}
 			l.c.Transition(1)
 			h := mc.NewHasher().Fs(g.C1[:g.N]).Fs(g.NAOS[:4]).Fs(g.NFOS[:4]).Fs(g.MINAOS[:]).Fs(g.MINFOS[:]).F(g.UMS).F(g.DSUMM).F(g.PESUM)
 			l.c.State(h.Sum())
